@@ -174,6 +174,7 @@ func LoadRulesOfResource(res string, rules []*Rule) (bool, error) {
 		delete(currentRules, res)
 		// clear breakers & breakerRules
 		updateMux.Lock()
+		forgetRulesInForce(breakers[res], nil)
 		delete(breakers, res)
 		delete(breakerRules, res)
 		updateMux.Unlock()
@@ -280,6 +281,12 @@ func onRuleUpdate(rawResRulesMap map[string][]*Rule) (err error) {
 			validResRulesMap[res] = builtRules
 		} else {
 			delete(validResRulesMap, res)
+		}
+	}
+
+	for res, cbs := range breakersClone {
+		if _, inNewList := validResRulesMap[res]; !inNewList {
+			forgetRulesInForce(cbs, nil)
 		}
 	}
 
@@ -433,6 +440,8 @@ func BuildResourceCircuitBreaker(res string, rulesOfRes []*Rule, oldResCbs []Cir
 func buildResourceCircuitBreaker(res string, rulesOfRes []*Rule, oldResCbs []CircuitBreaker) ([]CircuitBreaker, []*Rule) {
 	builtRules := make([]*Rule, 0, len(rulesOfRes))
 	newCbsOfRes := make([]CircuitBreaker, 0, len(rulesOfRes))
+	allOldResCbs := append([]CircuitBreaker(nil), oldResCbs...)
+	defer func() { forgetRulesInForce(allOldResCbs, newCbsOfRes) }()
 	// Old breakers that belong to a rule which is unchanged in the new list are reserved for it:
 	// they must not donate their statistic to a modified rule that happens to be listed earlier,
 	// otherwise the unchanged rule is rebuilt from scratch and loses its runtime state.
@@ -448,7 +457,7 @@ func buildResourceCircuitBreaker(res string, rulesOfRes []*Rule, oldResCbs []Cir
 	// very same fields. Only rules that continue no old rule by ID are matched by their fields alone.
 	idInOld := make(map[string]bool, len(oldResCbs))
 	for _, oldCb := range oldResCbs {
-		idInOld[loadedIdOf(oldCb)] = true
+		idInOld[ruleInForceOf(oldCb).Id] = true
 	}
 	spokenFor := make(map[string]bool, len(rulesOfRes))
 	for _, r := range rulesOfRes {
@@ -468,10 +477,10 @@ func buildResourceCircuitBreaker(res string, rulesOfRes []*Rule, oldResCbs []Cir
 				if reserved[oldCb] || !oldCb.BoundRule().isEqualsTo(r) {
 					continue
 				}
-				if pass == 0 && loadedIdOf(oldCb) != r.Id {
+				if pass == 0 && ruleInForceOf(oldCb).Id != r.Id {
 					continue
 				}
-				if pass == 1 && spokenFor[loadedIdOf(oldCb)] {
+				if pass == 1 && spokenFor[ruleInForceOf(oldCb).Id] {
 					continue
 				}
 				reserved[oldCb] = true
@@ -490,7 +499,7 @@ func buildResourceCircuitBreaker(res string, rulesOfRes []*Rule, oldResCbs []Cir
 			continue
 		}
 		for _, oldCb := range oldResCbs {
-			if !reserved[oldCb] && keptFor[oldCb] == nil && loadedIdOf(oldCb) == r.Id && oldCb.BoundRule().isStatReusable(r) {
+			if !reserved[oldCb] && keptFor[oldCb] == nil && ruleInForceOf(oldCb).Id == r.Id && oldCb.BoundRule().isStatReusable(r) {
 				keptFor[oldCb] = r
 				break
 			}
@@ -531,10 +540,8 @@ func buildResourceCircuitBreaker(res string, rulesOfRes []*Rule, oldResCbs []Cir
 			equalOldCb := oldResCbs[equalIdx]
 			newCbsOfRes = append(newCbsOfRes, equalOldCb)
 			builtRules = append(builtRules, r)
-			// The rule object in the breaker stays; the Id it goes by from now on is the new rule's.
-			if b, ok := equalOldCb.(interface{ setLoadedRuleId(string) }); ok {
-				b.setLoadedRuleId(r.Id)
-			}
+			// The rule object in the breaker stays; the rule it stands for from now on is the new one.
+			setRuleInForce(equalOldCb, r)
 			// remove old cb from oldResCbs
 			oldResCbs = append(oldResCbs[:equalIdx], oldResCbs[equalIdx+1:]...)
 			continue
